@@ -653,6 +653,16 @@ impl<'a, 'ast> Visit<'ast> for Ed<'a> {
                 return;
             }
         }
+        if name == "vec" {
+            // `vec![a, b]`: the elements are ordinary expressions — visit them so that the
+            // automatic edits (format!, .await, attributes, ...) apply inside as well
+            if let Ok(elems) = m.parse_body_with(syn::punctuated::Punctuated::<syn::Expr, syn::Token![,]>::parse_terminated) {
+                for e in &elems {
+                    Visit::visit_expr(self, e);
+                }
+            }
+            return;
+        }
         match name.as_str() {
             "debug_assert" | "debug_assert_eq" | "debug_assert_ne" | "pin_mut" => {
                 self.push(r.start, r.end, "()", "E7-macro-dropped", true);
